@@ -1337,6 +1337,9 @@ def install(reg):
             shp = args[0]
             if isinstance(shp, tuple) and not shp:
                 shp = ShapeV(shp0)
+            if isinstance(shp, int) and not isinstance(shp, bool) and shp >= 0:
+                shp = ShapeV(shape1(z3.IntVal(shp)))          # numpy.zeros(n): the 1-d shape (n,)
+                ex.ctx.assume(z3.And(ndim(shp.term) == 1, size(shp.term) == args[0]))
             if not isinstance(shp, ShapeV):
                 raise U(f"numpy.{name} with non-symbolic shape", node)
             dt = kw.get("dtype", args[1] if len(args) > 1 else None)
